@@ -81,6 +81,7 @@ type Plan struct {
 	KillBefore int `json:"kill_before,omitempty"` // SIGKILL self just before the k-th Mutate (1-based) reaches RocksDB
 	KillAfter  int `json:"kill_after,omitempty"`  // SIGKILL self right after the k-th Mutate returned from RocksDB
 	Gate       int `json:"gate,omitempty"`        // park the k-th Mutate until released
+	FailAt     int `json:"fail_at,omitempty"`     // the k-th Mutate writes nothing and returns an I/O error (disk full, bad sector)
 }
 
 // NodeOpts configures a RaftNode (or server) opened in the child.
